@@ -21,6 +21,10 @@ def _model_src(kind, order):
         body = "a * x ** 2 + b * x + c"
         names = ["a", "b", "c"]
         defaults = {"a": 0.5, "b": 0.2, "c": 1.0}
+    elif kind == "sine":    # several local minima: the start values matter
+        body = "a * np.sin(w * x + phi) + c"
+        names = ["a", "w", "phi", "c"]
+        defaults = {"a": 1.5, "w": 1.2, "phi": 0.2, "c": 0.5}
     else:
         raise ValueError(kind)
     ordered = [names[i] for i in order]
@@ -33,7 +37,9 @@ DATA = {
     "line": (np.array([1.0, 2.0, 3.0, 4.0, 5.0]), np.array([2.3, 4.2, 7.5, 9.4, 11.1])),
     "quad": (np.array([0.0, 1.0, 2.0, 3.0, 4.0, 5.0]), np.array([1.1, 1.7, 3.4, 6.2, 10.8, 16.1])),
 }
-UNIT_OF_Y = {"exp": {"A": 1, "k": 0, "c": 1}, "line": {"a": 1, "b": 1}, "quad": {"a": 1, "b": 1, "c": 1}}
+_XS = np.linspace(0.0, 12.0, 30)
+DATA["sine"] = (_XS, 2.0 * np.sin(1.3 * _XS + 0.4) + 0.5 + np.random.RandomState(151).normal(0, 0.25, 30))
+UNIT_OF_Y = {"sine": {"a": 1, "w": 0, "phi": 0, "c": 1}, "exp": {"A": 1, "k": 0, "c": 1}, "line": {"a": 1, "b": 1}, "quad": {"a": 1, "b": 1, "c": 1}}
 
 
 def build(job, perm=None, order=None, scale=1.0):
@@ -46,7 +52,7 @@ def build(job, perm=None, order=None, scale=1.0):
     order = list(range(names_n)) if order is None else order
     model, ordered, canon = _model_src(kind, order)
     fit = XYFit([x[perm], y[perm] * scale], model, minimizer=job["backend"])
-    sig = np.linspace(0.04, 0.09, n)
+    sig = np.linspace(0.04, 0.09, n) if kind != "sine" else np.full(n, 0.25)
     fit.add_error("y", sig[perm] * scale, name="pt")
     if job["matrix"]:
         cor = np.fromfunction(lambda i, j: 0.6 ** np.abs(i - j), (n, n))
@@ -59,7 +65,7 @@ def build(job, perm=None, order=None, scale=1.0):
     u = UNIT_OF_Y[kind]
     if job["fix"] is not None:
         nm = canon[job["fix"]]
-        v = {"A": 2.0, "k": 0.45, "c": 0.1, "a": 1.0, "b": 1.0}.get(nm, 1.0)
+        v = {"A": 2.0, "k": 0.45, "c": 0.1 if kind != "sine" else 0.5, "a": 1.0, "b": 1.0}.get(nm, 1.0)
         fit.fix_parameter(nm, v * (scale if u[nm] else 1.0))
     if job["limit"] is not None:
         nm = canon[job["limit"]]
@@ -137,10 +143,18 @@ def replay_job(job):
     order = list(rng.permutation(npar))
     if order == list(range(npar)):
         order = order[::-1]
-    f3, _, _ = build(job, order=order)
-    issues += compare(base, results(f3, canon), np.ones(npar), "ParameterOrder", job)
-    if issues:
-        return issues
+    orders = [order]
+    if job["fix"] is not None:      # the fixed parameter in front of, between and behind the free ones
+        fx = job["fix"]
+        rest = [j for j in range(npar) if j != fx]
+        orders += [[fx] + rest, rest[:1] + [fx] + rest[1:], rest[::-1] + [fx]]
+    for order in orders:
+        if order == list(range(npar)):
+            continue
+        f3, _, _ = build(job, order=[int(j) for j in order])
+        issues += compare(base, results(f3, canon), np.ones(npar), "ParameterOrder", job)
+        if issues:
+            return issues
     # y in another unit
     k = job["scale_exp"]
     scale = 10.0 ** k
